@@ -263,7 +263,7 @@ class Deferred(BaseDeferred):
 Deferred.next_instance_id = 1
 
 
-MAX_COEFFICIENT_BITS = 4096
+MAX_COEFFICIENT_BITS = 2 ** 17
 
 
 class LinearPolynomial(BaseDeferred):
